@@ -59,6 +59,23 @@ def instruction_lines(listing_text):
     return out
 
 
+PREFIX_WORDS = {"lock", "rep", "repz", "repnz", "repe", "repne", "bnd", "notrack", "cs", "ds", "es", "fs", "gs", "ss", "addr16", "addr32", "data16", "data32",
+                "xacquire", "xrelease", "rex"}
+
+
+def line_operand_count(text):
+    """Number of operands on an instruction line as objdump printed it: the operand text (second blank-separated word of the
+    instruction text, before any annotation or comment) split at commas outside parentheses.  None for lines that start with a
+    prefix word (open finding F15 decides what their operands are)."""
+    t = text.replace("data16 ", "")
+    toks = t.split(None, 1)
+    if not toks or toks[0] in PREFIX_WORDS or toks[0].startswith(("rex", "{")):
+        return None
+    optext = (toks[1] if len(toks) > 1 else "").split("#")[0].strip()
+    optext = optext.split(" ")[0] if optext else ""
+    return len(split_operands(optext)) if optext else 0
+
+
 # ---------------------------------------------------------------------------------- operands (C09)
 
 
